@@ -32,8 +32,8 @@ from saml2_tophat import BINDING_HTTP_REDIRECT, pack, sigver, s_utils
 from saml2_tophat.sigver import verify_redirect_signature, RSACrypto
 
 CLAIM = {
-    "text": "Coq theorems (Props/C15.v) over a model of SIGNER_ALGS / RSACrypto.get_signer / RSASigner / pack.http_redirect_message / Entity.apply_binding / verify_redirect_signature with symbolic RSA, instantiated with the order tables, SIGNER_ALGS key set, SIG_ALLOWED_ALG and the urlencode flavour of each module REGENERATED from the source on every run: (1) for ALL byte strings: any query carrying a Signature value made over (kind, message value, RelayState present/absent, SigAlg) that verifies under ANY certificate, in any verifier state, has the signer's key as that certificate and exactly those four items (injectivity of the octet-string construction from the C14 codec lemmas), hence no other certificate and no single-parameter mutation verifies; unsupported / missing algorithm and missing / foreign Signature never verify; a signed query verifies under the signer's certificate for every supported algorithm when message value and RelayState contain no tilde (the unconditional statement is REFUTED: pack signs with urllib's urlencode, sigver verifies with future.backports' urlencode which escapes the tilde); (2) for EVERY trace of the shared-table transition system (any entities, length, interleaving; induction over the trace) a Sign step uses the key last stored for its algorithm by anybody; own-key-under-any-schedule is REFUTED by the 3-step schedule A.get_signer; B.get_signer (or B verifying); A.sign and proved for schedules in which nobody else stores a key for that algorithm in between. Whether get_signer shares the module-level object and whether the two modules use the same urlencode are regenerated flags the model follows; C15_schedule_status / C15_encoder_status prove the FULL statements for the actual tables as soon as a repair flips a flag. Tie to the code: exhaustive bounded interleavings of two/three differently keyed real entities with real RSA, and an all-algorithms x request/response x mutation sweep through Entity.apply_binding and verify_redirect_signature, compared with the model on every run.",
-    "note": "Trusted: Coq kernel + vm_compute; symbolic RSA (unforgeability and digest distinctness are the assumption, real RSA/SHA enter only through the correspondence runs); the reflection translator harness/translate_c15.py; the hand-written model, tied to the code by the correspondence units. The message parameter VALUE (deflate+base64 of the message) is the model's input: zlib/base64 are C14's. Thread schedules are covered at the granularity of the three shared-state operations (get_signer, sign, verify); the real-thread run is supporting evidence. Two findings on the unchanged code are recorded in known_findings.json (shared signer object; tilde in RelayState). Parameters not named in REQ_ORDER/RESP_ORDER are not covered by the signature (an unsigned extra parameter, including a SAMLResponse added next to a signed SAMLRequest, is ignored by verification): modelled, outside the statement.",
+    "text": "Coq theorems (Props/C15.v) over a model of SIGNER_ALGS / RSACrypto.get_signer / RSASigner / pack.http_redirect_message / Entity.apply_binding / verify_redirect_signature with symbolic RSA, instantiated with the order tables, SIGNER_ALGS key set, SIG_ALLOWED_ALG and the urlencode flavour of each module REGENERATED from the source on every run: (1) for ALL byte strings: any query carrying a Signature value made over (kind, message value, RelayState present/absent, SigAlg) that verifies under ANY certificate, in any verifier state, has the signer's key as that certificate and exactly those four items (injectivity of the octet-string construction from the C14 codec lemmas), hence no other certificate and no single-parameter mutation verifies; unsupported / missing algorithm and missing / foreign Signature never verify; a signed query verifies under the signer's certificate for every supported algorithm, message value and RelayState (C15_own_cert_verifies: FULL statement, proved for today's regenerated encoder flags; before the repair 2c15a188 the two modules' urlencode differed on the tilde - witness C15_own_cert_verifies_refuted under that hypothesis); (2) for EVERY trace of the transition system (any entities, length, interleaving, any state at signing time) a Sign step made with a handle an entity obtained uses that entity's own key (C15_own_key_any_schedule: FULL statement, proved for today's regenerated flag 'get_signer returns a fresh signer'); for the shared-object behaviour before the repair 8429fa3f the file keeps the exact characterisation (a Sign uses the key last stored by anybody, induction over the trace) and the refutation by A.get_signer; B.get_signer (or B verifying); A.sign, both under the hypothesis that the flag says shared. Whether get_signer shares the module-level object and whether the two modules use the same urlencode are regenerated flags the model follows; C15_schedule_status / C15_encoder_status prove the FULL statements for the actual tables as soon as a repair flips a flag. Tie to the code: exhaustive bounded interleavings of two/three differently keyed real entities with real RSA, and an all-algorithms x request/response x mutation sweep through Entity.apply_binding and verify_redirect_signature, compared with the model on every run.",
+    "note": "Trusted: Coq kernel + vm_compute; symbolic RSA (unforgeability and digest distinctness are the assumption, real RSA/SHA enter only through the correspondence runs); the reflection translator harness/translate_c15.py; the hand-written model, tied to the code by the correspondence units. The message parameter VALUE (deflate+base64 of the message) is the model's input: zlib/base64 are C14's. Thread schedules are covered at the granularity of the three shared-state operations (get_signer, sign, verify); the real-thread run is supporting evidence. Two defects found by this check were repaired in /repo (fix: 8429fa3f shared signer object, fix: 2c15a188 tilde in RelayState; known_findings.json 'fixed'); if either returns, C15_own_key_any_schedule / C15_own_cert_verifies stop compiling against the regenerated flags and the schedule / sweep oracles produce the replay. Parameters not named in REQ_ORDER/RESP_ORDER are not covered by the signature (an unsigned extra parameter, including a SAMLResponse added next to a signed SAMLRequest, is ignored by verification): modelled, outside the statement.",
     "technique": "machine-checked proof (Coq: injectivity over all strings, induction over all traces) + regenerated-table obligations + deterministic step-sequencing correspondence with real RSA + mutation sweep",
 }
 TRUSTED = [
